@@ -48,7 +48,17 @@ class Bound:
 
     def norm(self, cn, t, shift):
         if t[0] == 'call' and t[1] in (S('max'), S('min')) and len(t[2]) >= 2:
-            ps = [padd(cn.poly(a), pconst(shift)) for a in t[2]]
+            def flat(x, sh):
+                # max(a, max(b, c)) == max(a, b, c); constants added inside distribute over max / min
+                if x[0] == 'call' and x[1] == t[1] and len(x[2]) >= 2:
+                    out = []
+                    for y in x[2]:
+                        out += flat(y, sh)
+                    return out
+                if x[0] == 'bin' and x[1] in ('Add', 'Sub') and is_num(x[3]) and x[2][0] == 'call' and x[2][1] == t[1]:
+                    return flat(x[2], sh + (x[3][1] if x[1] == 'Add' else -x[3][1]))
+                return [(x, sh)]
+            ps = [padd(cn.poly(a), pconst(shift + sh)) for a, sh in flat(t, 0)]
             keys = {pkey(p): p for p in ps}
             if len(keys) == 1:
                 return 'poly', frozenset([pshow(ps[0])])
